@@ -120,6 +120,24 @@ func snapshot(c fox.Context, kind string) Seen {
 	for p := range c.Params() {
 		s.Params = append(s.Params, ref.KV{K: p.Key, V: p.Value})
 	}
+	// the by-name accessor agrees with the listing for every name that occurs once, and an absent name gives ""; a
+	// disagreement shows as an extra entry, which no reference answer contains
+	times := map[string]int{}
+	for _, kv := range s.Params {
+		times[kv.K]++
+	}
+	for _, kv := range s.Params {
+		if times[kv.K] > 1 {
+			continue // which of two entries of one name the accessor gives is not specified
+		}
+		if got := c.Param(kv.K); got != kv.V {
+			s.Params = append(s.Params, ref.KV{K: "!Param(" + kv.K + ")", V: got})
+			break
+		}
+	}
+	if got := c.Param("verif-absent-name"); got != "" {
+		s.Params = append(s.Params, ref.KV{K: "!Param(verif-absent-name)", V: got})
+	}
 	return s
 }
 
